@@ -32,8 +32,8 @@ RULE = ("grid leaf x (which of {show kwarg, object, family default, base default
         ">= 2 assignments; distinct by sha1 of the case")
 ASSUMPTIONS = ["leaves and families are enumerated from the running tree; 'label' and 'color' are auto-filled when "
                "unset at every level and are then not judged",
-               "where two default families both define a leaf (Triangle, TriangularMesh: 'magnet' and the specific "
-               "family) either family's value is accepted"]
+               "where two default families both define a leaf (Triangle, TriangularMesh: 'magnet' and the class specific "
+               "family) the class specific family is 'the object's family' and wins"]
 NOTATIONS = ["ctor_kw", "ctor_dict", "attr", "update_kw", "update_dict"]
 POOL = [0.3, 0.7, 2, 5, 1, "red", "blue", "#112233", "solid", "dashed", "dotted", "o", "x", "s", "+", "arrow",
         "color", "arrow+color", "auto", "tip", "tail", "middle", "cone", "arrow3d", "bicolor", "tricolor", "tricycle", "scaled",
@@ -44,7 +44,7 @@ POOL = [0.3, 0.7, 2, 5, 1, "red", "blue", "#112233", "solid", "dashed", "dotted"
 def plan(tier):
     return {"shards": 8 if tier == "quick" else 16, "budget_s": 30 if tier == "quick" else 420,
             "required_counters": ["precedence_cases", "notation_cases", "history_cases", "invalid_cases",
-                                  "reset_checks", "show_observations", "leak_checks"]}
+                                  "reset_checks", "show_observations", "leak_checks", "shared_dict_cases", "two_family_cases"]}
 
 
 # ------------------------------------------------------------------ helpers on the running tree
@@ -212,9 +212,17 @@ def run_precedence(ctx, case):
         # defaults
         if "base" in levels and base_has:
             magpy.defaults.display.style.base.update(**{leaf: vals["base"]})
+        specific = [f for f in fams if f == kind.lower()]
+        generic = [f for f in fams if f != kind.lower()]
         if "family" in levels and fams:
             for f in fams:
                 getattr(magpy.defaults.display.style, f).update(**{leaf: vals["family"]})
+            if specific and generic and "family_generic" in vals:
+                # the object's own (class specific) family and a generic one (magnet) both define the leaf:
+                # give them different values - the defaults "of the object's family" are the specific ones
+                for f in generic:
+                    getattr(magpy.defaults.display.style, f).update(**{leaf: vals["family_generic"]})
+                ctx.count("two_family_cases")
         # object value through the chosen notation
         kw = {}
         if "object" in levels:
@@ -347,6 +355,44 @@ def run_history(ctx, case):
         magpy.defaults.reset()
 
 
+def run_shared_dict(ctx, case):
+    """one dict object used as style= for two objects: each keeps the value, the caller's dict is untouched"""
+    import copy as _copy
+
+    import magpylib as magpy
+
+    kind, leaf, v = case["kind"], case["leaf"], case["value"]
+    magpy.defaults.reset()
+    try:
+        d = nested(leaf, v)
+        d0 = _copy.deepcopy(d)
+        with quiet():
+            o1 = make_obj(kind, style=d)
+            o2 = make_obj(kind, style=d)
+            order = case["access"]
+            if order == "first":
+                o1.style
+            elif order == "copy":
+                o1.copy()
+            elif order == "show":
+                effective(o1, {})
+            got2 = flat(o2.style)[leaf]
+            got1 = flat(o1.style)[leaf]
+        ctx.count("shared_dict_cases")
+        ctx.count("leak_checks")
+        ctx.evaluated(case, nontrivial=True)
+        if d != d0:
+            ctx.violation({"kind": "caller-style-dict-modified", "cls": kind, "access": order}, case, {"dict_after": d})
+            return
+        for name, g in (("first", got1), ("second", got2)):
+            if not (g == v and type(g) == type(v)):
+                ctx.violation({"kind": "shared-style-dict-lost", "cls": kind, "which": name, "access": order}, case,
+                              {"got": g, "want": v, "leaf": leaf})
+                return
+    finally:
+        magpy.defaults.reset()
+
+
 def run_invalid(ctx, case):
     import magpylib as magpy
 
@@ -427,6 +473,10 @@ def assign_values(good, levels, flip):
     out = {}
     for i, l in enumerate(order):
         out[l] = a if i == 0 else (b if len(good) < 3 else good[(i + (1 if flip else 0)) % len(good)] if good[(i + (1 if flip else 0)) % len(good)] != a else b)
+    if "family" in out:
+        out["family_generic"] = next((g for g in good if not (g == out["family"] and type(g) == type(out["family"]))), None)
+        if out["family_generic"] is None:
+            del out["family_generic"]
     return out
 
 
@@ -459,7 +509,10 @@ def run_shard(ctx):
         vals = leaf_values(ctx, kind)
         leaf = list(vals)[int(rng.integers(0, len(vals)))]
         good = vals[leaf]
-        if rng.random() < 0.6:
+        if rng.random() < 0.12:
+            run_shared_dict(ctx, {"type": "shared_dict", "kind": kind, "leaf": leaf, "value": good[0],
+                                  "access": str(rng.choice(["first", "copy", "show", "none"]))})
+        elif rng.random() < 0.6:
             steps = [{"value": good[int(rng.integers(0, len(good)))],
                       "how": str(rng.choice(["attr", "update_kw", "update_dict", "style_setter", "default_family"],
                                             p=[0.3, 0.25, 0.2, 0.1, 0.15]))} for _ in range(int(rng.integers(2, 7)))]
@@ -485,4 +538,4 @@ def run_shard(ctx):
 
 def replay(ctx, case):
     ctx._pristine = pristine_defaults()
-    {"precedence": run_precedence, "history": run_history, "invalid": run_invalid}[case["type"]](ctx, case)
+    {"precedence": run_precedence, "history": run_history, "invalid": run_invalid, "shared_dict": run_shared_dict}[case["type"]](ctx, case)
